@@ -32,6 +32,7 @@ fn prog(name: &str, setup: Vec<TOp>, threads: Vec<Vec<TOp>>) -> Arc<Prog> {
         strict_unlink: true,
         fs_switch: false,
         recover_at_removals: false,
+        fault: None,
     })
 }
 
@@ -116,6 +117,7 @@ pub fn c06_programs() -> Vec<Arc<Prog>> {
             strict_unlink: true,
             fs_switch: false,
             recover_at_removals: false,
+            fault: None,
         })
     };
     let pre = vec![Batch(vec![(0, Some(1)), (1, Some(2))])];
@@ -344,6 +346,7 @@ pub fn c03_programs() -> Vec<Arc<Prog>> {
             strict_unlink: true,
             fs_switch,
             recover_at_removals: false,
+            fault: None,
         })
     };
     let pre = vec![Put(0, 1, 8), Flush, Put(1, 2, 8), Flush];
@@ -369,6 +372,7 @@ pub fn c09_programs() -> Vec<Arc<Prog>> {
             strict_unlink: false,
             fs_switch: false,
             recover_at_removals: false,
+            fault: None,
         })
     };
     vec![
@@ -413,6 +417,7 @@ pub fn c11_removal_programs() -> Vec<Arc<Prog>> {
             strict_unlink: true,
             fs_switch: false,
             recover_at_removals: true,
+            fault: None,
         })
     };
     let l0 = vec![Put(0, 1, 8), Flush, Put(0, 2, 8), Flush, Put(0, 3, 8), Flush, Put(0, 4, 8)];
@@ -424,5 +429,32 @@ pub fn c11_removal_programs() -> Vec<Arc<Prog>> {
             vec![Put(0, 1, 8), Flush, Put(0, 2, 8), Flush, Put(0, 3, 8), Flush, Put(0, 4, 8), Flush, Put(0, 5, 8), Flush, Put(0, 6, 8)],
             vec![vec![Put(1, 7, 8), Put(0, 8, 8), Put(1, 9, 8)], vec![Get(0)]],
         ),
+    ]
+}
+
+/// C09 with an I/O fault: writers queued behind a leader that is waiting for room when the
+/// background flush fails must all be released (with an error), never left waiting.
+pub fn c09_fault_programs() -> Vec<Arc<Prog>> {
+    use crate::vfs::class;
+    let p = |name: &str, setup: Vec<TOp>, threads: Vec<Vec<TOp>>, fault: (u32, &'static str)| {
+        Arc::new(Prog {
+            name: name.to_string(),
+            cfg: rot_cfg(),
+            keys: kab(),
+            setup,
+            threads,
+            strict_unlink: false,
+            fs_switch: false,
+            recover_at_removals: false,
+            fault: Some(fault),
+        })
+    };
+    vec![
+        p("flush-fails: w+w||w", vec![Put(0, 1, 8)], vec![vec![Put(1, 2, 8), Put(0, 3, 8)], vec![Put(1, 4, 8)]], (class::CREATE, ".rdb")),
+        p("flush-fails: w+w||w||w", vec![Put(0, 1, 8)], vec![vec![Put(1, 2, 8), Put(0, 3, 8)], vec![Put(1, 4, 8)], vec![Del(0)]], (class::CREATE, ".rdb")),
+        p("flush-fails: w+w||flush", vec![Put(0, 1, 8)], vec![vec![Put(1, 2, 8), Put(0, 3, 8)], vec![Flush]], (class::WRITE, ".rdb")),
+        p("manifest-fails: w+w||w", vec![Put(0, 1, 8)], vec![vec![Put(1, 2, 8), Put(0, 3, 8)], vec![Put(1, 4, 8)]], (class::WRITE, ".manifest")),
+        p("wal-create-fails: w+w||w", vec![Put(0, 1, 8)], vec![vec![Put(1, 2, 8), Put(0, 3, 8)], vec![Put(1, 4, 8)]], (class::CREATE, ".log")),
+        p("wal-write-fails: w||w||get", vec![Put(0, 1, 8)], vec![vec![Put(1, 2, 8)], vec![Put(0, 3, 8)], vec![Get(0)]], (class::WRITE, ".log")),
     ]
 }
